@@ -78,10 +78,28 @@ func (s termScenario) expectedErr() []string {
 // programs in one process, so it is avoided rather than reported.
 var pipeMu sync.Mutex
 
+// burnt: descriptors opened only to occupy the numbers a finished pipe program has just freed,
+// so that its belated second cancelReader.Close() cannot hit the next program's descriptors
+// (kept open for a while, then closed oldest first).
+var burnt []*os.File
+
+func burnDescriptors() {
+	for i := 0; i < 6; i++ {
+		if f, err := os.Open("/dev/null"); err == nil {
+			burnt = append(burnt, f)
+		}
+	}
+	for len(burnt) > 240 {
+		burnt[0].Close()
+		burnt = burnt[1:]
+	}
+}
+
 func runTermScenario(s termScenario, callers []string) termResult {
 	if s.Input == "pipe" {
 		pipeMu.Lock()
 		defer pipeMu.Unlock()
+		defer burnDescriptors() // (runs before the unlock, after the pipe itself was closed)
 	}
 	ctl := newRecCtl()
 	out := &safeBuffer{}
@@ -656,6 +674,7 @@ func scenAPI(out *scenOut, r *rng, thorough bool) {
 	// terminal, as in CI or under setsid). Callers parked before Run and callers
 	// arriving after it must all return.
 	ttyFail(out)
+	uncaughtPanic(out)
 	// "Before the program starts, Send blocks until it is running"
 	ctl := newRecCtl()
 	p := tea.NewProgram(recModel{c: ctl}, tea.WithInput(nil), tea.WithOutput(&safeBuffer{}), tea.WithoutSignalHandler())
@@ -682,6 +701,74 @@ func scenAPI(out *scenOut, r *rng, thorough bool) {
 	select {
 	case <-done:
 	case <-time.After(2 * time.Second):
+	}
+}
+
+// uncaughtPanic: the program was built with WithoutCatchPanics and its Update panics; the
+// goroutine that called Run recovers the panic. The program has ended ("for any reason"): the
+// callers blocked in Send / Quit / Println / Printf / Wait and the ones arriving later return.
+func uncaughtPanic(out *scenOut) {
+	ctl := newRecCtl()
+	g := newGate(true)
+	ctl.gates["update:u7.0"] = g
+	ctl.panicOn["update:u7.0"] = true
+	p := tea.NewProgram(recModel{c: ctl}, tea.WithInput(nil), tea.WithOutput(&safeBuffer{}), tea.WithoutSignalHandler(), tea.WithoutCatchPanics())
+	runDone := make(chan struct{})
+	go func() {
+		defer close(runDone)
+		defer func() { recover() }()
+		p.Run()
+	}()
+	desc := "WithoutCatchPanics; Update panics while callers are blocked; the caller of Run recovers"
+	waitFor(2*time.Second, func() bool { return ctl.log.has("view-exit", "") })
+	type call struct {
+		name string
+		done chan struct{}
+	}
+	var calls []call
+	start := func(name string, f func()) {
+		c := call{name, make(chan struct{})}
+		calls = append(calls, c)
+		go func() { f(); close(c.done) }()
+	}
+	for i := 0; i < 2; i++ {
+		start(fmt.Sprintf("wait#%d@before", i), p.Wait)
+	}
+	go p.Send(userMsg{7, 0}) // Update holds at the gate, then panics
+	waitFor(2*time.Second, func() bool { return ctl.log.has("update-enter", "u7.0") })
+	start("send@before", func() { p.Send(userMsg{7, 1}) })
+	start("quit@before", p.Quit)
+	start("println@before", func() { p.Println("x") })
+	start("printf@before", func() { p.Printf("%d", 1) })
+	time.Sleep(20 * time.Millisecond) // they are parked behind the busy event loop
+	g.open()
+	select {
+	case <-runDone:
+	case <-time.After(3 * time.Second):
+		out.fail(finding{Property: "C13", Class: "harness", What: "Run did not end by the panic", Input: desc})
+		p.Kill()
+		return
+	}
+	start("send@after", func() { p.Send(userMsg{7, 2}) })
+	start("quit@after", p.Quit)
+	start("println@after", func() { p.Println("y") })
+	start("printf@after", func() { p.Printf("%d", 2) })
+	start("wait@after", p.Wait)
+	deadline := time.After(3 * time.Second)
+	var stuck []string
+	for _, c := range calls {
+		select {
+		case <-c.done:
+		case <-deadline:
+			stuck = append(stuck, c.name)
+			deadline = time.After(time.Millisecond)
+		}
+	}
+	out.record("uncaught-panic", desc)
+	if len(stuck) > 0 {
+		out.fail(finding{Property: "C13", Class: "new", What: "calls never return after Run ended by a panic that was not caught by the program (WithoutCatchPanics)", Input: desc,
+			Expected: "every call returns once the program has ended", Observed: strings.Join(stuck, ",")})
+		p.Kill()
 	}
 }
 
